@@ -200,9 +200,9 @@ PROPS["C17"] = dict(
     title="The block store is causally closed at every instant (crash safety)",
     streams=[dict(name="crash", quick=["-n", "80"], thorough=["-n", "3000", "-thorough"], shards_quick=3, shards_thorough=14)],
     diff_fields=r".*", spec_ids=["C17"],
-    technique="Lean 4: invariant over all histories that every prefix of the block-write sequence is closed under next and refs (store_closed_at_every_prefix), writes precede publication (memory_subset_store); write-log replay of real histories with every returned identifier loaded from the store as of its return and as of the end",
-    level_text="Kernel-checked for every reachable system (any history of appends, merges, identity changes on replicas sharing a store) and every crash point n: every entry block among the first n writes has all its predecessors and references among them; every entry a replica holds is in the store; what a manifest or head hash names is in the store with its history; the store only grows. Tied to the code by recording every block write/removal in order, checking closure at each write with the same decidable predicate (proved sound), and loading every returned entry hash / manifest from the store rebuilt at its return point and at the end, comparing with the recorded log state. Durability below Dag().Add is outside the model.",
-    level_note="Trusted: Lean kernel; that the store write sequence of entry blocks is the model's universe order (Append writes before publishing — compared by the harness write log); content addressing; durability/atomicity of a single Dag().Add; harness, driver. 'Loads to exactly the state' is checked on the implementation per returned identifier; its Lean statement is fetch_eq_source (C09) under SourceInStore.",
+    technique="Lean 4: invariant over all histories that every prefix of the block-write sequence is closed under next and refs (store_closed_at_every_prefix), writes precede publication (memory_subset_store), system + fetcher + loader composition (published_state_loads); write-log replay of real histories with every returned identifier loaded from the store as of its return and as of the end",
+    level_text="Kernel-checked for every reachable system (any history of appends, merges, identity changes on replicas sharing a store) and every crash point n: every entry block among the first n writes has all its predecessors and references among them; every entry a replica holds is in the store; what a manifest or head hash names is in the store with its history; the store only grows; and (published_state_loads) for every replica state l of every reachable system, every continuation of the history and every crash point at or after l's last write, every accepted unbounded fetcher execution from l's manifest heads followed by any of the four loaders rebuilds l: same id, entries, heads, and Values() under a strict total ordering (uses reachable_refsIn: skip references stay inside the replica). Tied to the code by recording every block write/removal in order, checking closure at each write with the same decidable predicate (proved sound), and loading every returned entry hash / manifest from the store rebuilt at its return point and at the end, comparing with the recorded log state. Durability below Dag().Add is outside the model.",
+    level_note="Trusted: Lean kernel; that the store write sequence of entry blocks is the model's universe order (Append writes before publishing — compared by the harness write log); content addressing; durability/atomicity of a single Dag().Add; harness, driver. published_state_loads assumes no block has the undefined (empty) CID; 'loads to exactly the state' is additionally checked on the implementation per returned identifier.",
     design_ref="§8 C17",
     rule="crash stream: 2-4 replicas (few writers, so replicas often share an identity and identical blocks arise), some read-only (denying) replicas, 12-32 ops of append (small payload alphabet)/join/publish; every write prefix checked; up to 14 returned identifiers x 2 store snapshots loaded; distinct = distinct operation shapes; non-trivial = at least one successful append",
 )
